@@ -563,6 +563,9 @@ fn run_typed<D: Dec>(req0: &[&str]) -> String {
                 let Some(d) = D::from_le(&b) else { return "skip".into() };
                 let s = d.to_string();
                 let g = format!("{:?}", d);
+                // formatter options (width, fill, alignment, sign, precision, alternate) are part of the public Display /
+                // Debug surface: whatever the crate does with them, it must not panic (their output is not compared)
+                let _ = format!("{:3}|{:>40}|{:<5}|{:^7}|{:+}|{:08}|{:.2}|{:#?}|{:*^w$}|{:w$}", d, d, d, d, d, d, d, d, d, d, w = 1usize);
                 format!("ok {} {}", hex(s.as_bytes()), if s == g { 1 } else { 0 })
             })
         }
@@ -703,9 +706,24 @@ pub fn text_cap(ty: &str) -> Option<usize> {
     if ty == "big" {
         return None;
     }
+    // probed once per type (the generators ask for it per request); bounded, so that an implementation that never
+    // answers "buffer too small" cannot stall the generator
+    use std::sync::OnceLock;
+    static CAPS: OnceLock<[Option<usize>; 4]> = OnceLock::new();
+    let caps = CAPS.get_or_init(|| ["b32", "b64", "b128", "dyn"].map(probe_text_cap));
+    match ty {
+        "b32" => caps[0],
+        "b64" => caps[1],
+        "b128" => caps[2],
+        _ => caps[3],
+    }
+}
+
+fn probe_text_cap(ty: &str) -> Option<usize> {
     let mut k = 1usize;
     loop {
-        let s = "0".repeat(k);
+        // ones, not zeros: redundant zeros are the one thing a parser might legitimately drop
+        let s = "1".repeat(k);
         let frags = vec![(s, false)];
         let line_ok = {
             let disp = Frags { frags: &frags, fail_at: None, swallow: false };
@@ -724,7 +742,7 @@ pub fn text_cap(ty: &str) -> Option<usize> {
             return Some(k - 1);
         }
         k += 1;
-        if k > 100_000 {
+        if k > 2048 {
             return None;
         }
     }
